@@ -175,6 +175,11 @@ func init() {
 		if isOpaque(args[0]) {
 			return args[0]
 		}
+		// an argument with its own Format method (lua.LNumber, lua.LString): only the library's real
+		// directive parser calls it the way the program will see it, so fmt's source is interpreted
+		if _, ok := args[0].(string); ok && hasFormatter(args[1].([]value)) {
+			return useBody{}
+		}
 		if _, ok := args[0].(symstr); ok {
 			return opaqueStr{"<symbolic format>"}
 		}
@@ -210,6 +215,19 @@ func init() {
 		p := args[0].(*value)
 		items := poolItems[p]
 		if len(items) == 0 {
+			// an empty pool calls New when it is set (the last field of sync.Pool), else returns nil
+			if st, ok := (*p).(structure); ok && len(st) > 0 {
+				switch nf := st[len(st)-1].(type) {
+				case *closure:
+					if nf != nil {
+						return call(fr.i, fr, token.NoPos, nf, nil)
+					}
+				case *ssa.Function:
+					if nf != nil {
+						return call(fr.i, fr, token.NoPos, nf, nil)
+					}
+				}
+			}
 			return iface{}
 		}
 		it := items[len(items)-1]
@@ -329,4 +347,29 @@ func formatVerbs(format string) []byte {
 		}
 	}
 	return out
+}
+
+// UseRealFmt removes the fmt models so that the library's own source is interpreted (experiment).
+func UseRealFmt() {
+	for _, n := range []string{"fmt.Sprintf", "fmt.Sprint", "fmt.Errorf"} {
+		delete(externals, n)
+	}
+}
+
+func hasFormatter(args []value) bool {
+	for _, a := range args {
+		ia, ok := a.(iface)
+		if !ok || ia.t == nil {
+			continue
+		}
+		ms := types.NewMethodSet(ia.t)
+		for i := 0; i < ms.Len(); i++ {
+			if ms.At(i).Obj().Name() == "Format" {
+				if sig, ok := ms.At(i).Type().(*types.Signature); ok && sig.Params().Len() == 2 {
+					return true
+				}
+			}
+		}
+	}
+	return false
 }
